@@ -128,6 +128,8 @@ C11_RULE = (
     "with allocator poisoning (stale reads become wrong values) and under Miri (Tree Borrows). (3) slider-heavy texts with "
     "malformed path tokens and very long paths decoded through byte-wise readers natively with poisoning and under Miri. "
     "(4) the builder histories of C18 (Difficulty::clock_rate stores a NonZeroU64 made with new_unchecked). "
+    "(5) maps edited in code through Beatmap's public fields (fewer sounds than objects, objects out of order, control "
+    "points missing or unsorted, mode not fitting the objects): panics are tolerated, memory errors are not. "
     "Distinct = distinct op-kind sequences / fault lists over all parts."
 )
 
@@ -153,6 +155,8 @@ def run_c11(tier):
         # Difficulty::clock_rate keeps its value in a NonZeroU64 built with new_unchecked: the builder histories
         # (incl. raw writes into InspectDifficulty) exercise that unsafe site; debug assertions turn a zero into an abort
         dict(engine="c18", quick=150000, thorough=2000000, build="default", prefix="C11/builder-unsafe/"),
+        # maps edited in code (public fields): panics are fine, a dead worker is not
+        dict(engine="c11e", quick=300000, thorough=4000000, build="default", env={"VERIF_ALLOC_JUNK": "165"}),
     ]
     sums, vios = _native("C11", parts, tier)
     plan = [
@@ -162,6 +166,7 @@ def run_c11(tier):
         ("life02", "", 8, 48, 2, 0.0),
         ("sliders", "", 16, 96, 12, 0.0),
         ("builder", "", 8, 48, 6, 0.0),
+        ("edited", "", 16, 96, 4, 0.0),
     ]
     msums, mvios, mstats = M.run("C11", _miri_jobs(plan, tier))
     return _finish("C11", tier, t0, sums, vios, msums, mvios, mstats, C11_RULE,
